@@ -537,3 +537,34 @@ Lemma published_names_covered :
   forallb (fun '(nm, _) => existsb (fun c => match const_name c with Some n => String.eqb n nm | None => false end) named_codes)
           code_consts = true.
 Proof. vm_compute. reflexivity. Qed.
+
+(* ------------------------------------------------------------------ totality on the published codes *)
+(* every code that has a published constant name (all variants, parameters up to 10) is ACCEPTED by every
+   dispatcher: FuncCodeReader/Writer/Len::new, the reader factory, and the enum's own arms *)
+Definition is_some {A} (o : option A) : bool := match o with Some _ => true | None => false end.
+Definition total_ok (c : code) : bool :=
+  match const_name c with
+  | None => true
+  | Some _ =>
+      forallb (fun op => is_some (func_call op c) && is_some (enum_call op c) && is_some (named_const_call op c)) ops3
+      && is_some (factory_call c)
+  end.
+Lemma dispatch_total_ok : forallb total_ok named_codes = true.
+Proof. vm_compute. reflexivity. Qed.
+
+Theorem dispatch_total c nm op : In c named_codes -> const_name c = Some nm ->
+  (exists cl, func_call op c = Some cl) /\ (exists cl, enum_call op c = Some cl) /\
+  (exists cl, named_const_call op c = Some cl) /\ (exists cl, factory_call c = Some cl).
+Proof.
+  intros Hin Hn. pose proof dispatch_total_ok as HH. rewrite forallb_forall in HH.
+  specialize (HH c Hin). unfold total_ok in HH. rewrite Hn in HH.
+  apply andb_prop in HH as [H1 H2]. rewrite forallb_forall in H1.
+  assert (In op ops3) as Hop by (destruct op; cbn; auto).
+  specialize (H1 op Hop). apply andb_prop in H1 as [H1 H1c]. apply andb_prop in H1 as [H1a H1b].
+  unfold is_some in *.
+  destruct (func_call op c) as [a|]; [|discriminate].
+  destruct (enum_call op c) as [b|]; [|discriminate].
+  destruct (named_const_call op c) as [d|]; [|discriminate].
+  destruct (factory_call c) as [e|]; [|discriminate].
+  repeat split; eexists; reflexivity.
+Qed.
